@@ -79,11 +79,12 @@ ReLenAt(id, s, i) == CASE id = ","    -> IF s[i] = "," THEN 1 ELSE 0
                        [] id = "TAB"  -> IF s[i] = "TAB" THEN 1 ELSE 0
                        [] id = "[,:]" -> IF s[i] \in {",", ":"} THEN 1 ELSE 0
                        [] id = ",+"   -> RunOf(s, i, ",")
+                       [] id = ",|, " -> IF s[i] = "," THEN 1 ELSE 0     \* CODE-DERIVED: leftmost-FIRST, the first alternative that matches wins (not the longest): the blank stays in the next field
                        [] id = "[e~bxv]" -> IF s[i] \in {"e~", "bxv"} THEN 1 ELSE 0
 (* the characters a delimiter occurrence can consist of *)
 DelimChars(d) == CASE d.kind = "awk" -> AwkBlanks
                    [] d.kind = "str" -> {StrPat(d.id)[k] : k \in 1..Len(StrPat(d.id))}
-                   [] d.id \in {",", ",+"} -> {","}
+                   [] d.id \in {",", ",+", ",|, "} -> {","}
                    [] d.id = ", "      -> {",", " "}
                    [] d.id = "TAB"     -> {"TAB"}
                    [] d.id = "[,:]"    -> {",", ":"}
